@@ -57,6 +57,9 @@ def bit(value: int, byte: int, position: int) -> int:
     :param position: The position in the byte to set the bit on
 
     """
+    if value is not True and value is not False and \
+            (not isinstance(value, int) or value not in (0, 1)):
+        raise TypeError('bool required, received {!r}'.format(value))
     return byte | (value << position)
 
 
